@@ -385,7 +385,10 @@ def project(root, top='Manifest', namer=None, cidnames=None, max_nodes=4000):
                 ck.append([h, rev.get((h, v), ('j' if h in HASHLIB else 'u') + v[:12])])
             ents.append({'tag': e['tag'], 'p': namer.path(e['path']), 'size': min(e['size'], 2**31 - 1),
                          'ck': ck, 'odd': _odd_path(e['path']) if e['tag'] != 'TIMESTAMP' else False,
-                         'ts': e.get('ts', '')})
+                         'ts': e.get('ts', ''),
+                         # raw digests (truncated): identity of the entry across two projections, where the
+                         # content atoms may be named differently
+                         'hx': [[h, e['ck'][h][:16]] for h in sorted(e['ck'])]})
         mfs.append({'p': namer.path(mp), 'lp': namer.path(logical_path(mp)), 'ok': pm['ok'], 'comp': comp,
                     'signed': bool(pm['signed']), 'usize': usize, 'entries': ents,
                     'reg': mp in registered})
